@@ -404,6 +404,27 @@ Pull(w, ch) ==
                     IN [w2 EXCEPT !.slots[ch].conf = msg.l]
               [] OTHER -> w1
 
+\* process_channel_message(ConnectionClose) since repair 9d1e86f: before the client's Close is appended and the
+\* buffer sealed, whatever the channels' queues hold at that moment is taken in, entry by entry like an ordinary
+\* Pull, channels in ascending order - also while the I/O thread is not listening to them (backpressure).  It is
+\* an operator of its own: in a recorded execution every entry so taken shows up as a chanmsg record of its own
+\* BEFORE the Close's (ConnTrace keeps using Pull, and checks C18:accepted-lost at the Close's record); the
+\* design models (MC_Conn, MC_Batch) take the whole step at once.  "closeleaves" \in Bug: the code before the
+\* repair - entries left behind are never written (the buffer is sealed).
+RECURSIVE PullAllOf(_, _)
+PullAllOf(w, ch) == LET h == HandleOf(w, ch) IN
+                    IF h = "" \/ w.hs[h].pend = <<>> THEN w ELSE PullAllOf(Pull(w, ch), ch)
+RECURSIVE DrainChans(_, _)
+DrainChans(w, todo) ==
+    IF todo = {} THEN w
+    ELSE LET n == CHOOSE x \in todo : \A y \in todo : x <= y
+         IN DrainChans(PullAllOf(w, n), todo \ {n})
+PullD(w, ch) ==
+    LET h == HandleOf(w, ch) IN
+    IF h # "" /\ w.hs[h].pend # <<>> /\ Head(w.hs[h].pend).k = "close" /\ "closeleaves" \notin Bug
+    THEN Pull(DrainChans(w, DOMAIN w.slots), ch)
+    ELSE Pull(w, ch)
+
 \* Inner::allocate_channel succeeded with id n for the handle named h
 Alloc(w, n, h) ==
     [w EXCEPT !.slots = Put(@, n, [h |-> h, coll |-> NoColl, cons |-> <<>>, ret |-> "", conf |-> ""]),
